@@ -27,6 +27,13 @@ CHECKS = {
         ref="3 (C01-C03)"),
 }
 
+CHECKS["C04"] = dict(
+    engine="Rules",
+    text="The documented meaning of each expectation kind (equal, no-eol, escaped with its escape sequences, glob with ?/*, Cram glob with escapes, escaped glob, regex as whole-line match over an AST with alternation/concatenation/repetition/classes) is written as TLA+ operators (specs/Rules.tla). TLC enumerates every (kind, expression) in the bound together with every candidate line and checks sanity theorems of the reference; the harness renders each expression as a user writes it, parses it through ExpectationMaker with the default and the Cram-compatible registry and asks the real rule for every candidate line; TLC then recomputes the documented verdict for each (expression, line) answer of the implementation and any disagreement (either direction of the iff) is a violation.",
+    note="Trusted: TLC; my transcription of the documentation. The regex and wildmatch crates are observed only on the enumerated fragment (3-symbol alphabet incl. one multi-byte character, lines <= 3 characters). Malformed escaped expressions are not judged here.",
+    technique="TLA+ reference semantics of the rule kinds, TLC-enumerated vectors replayed into the real rules, TLC re-evaluation of each recorded answer",
+    ref="3 (C04)")
+
 NOT_YET = {
 }
 
@@ -68,6 +75,8 @@ def main():
         "engines": [
             {"name": "DiffAlgo", "path": "specs/DiffAlgo.tla", "serves_properties": ["C01", "C02", "C03"],
              "kind_free_text": "TLA+ spec of DiffTool::diff with reference language semantics; MC_DiffAlgo (TLC MC/GEN), DiffTrace (result-level trace validation), DiffStepTrace (step-level trace validation of hook events)"},
+            {"name": "Rules", "path": "specs/Rules.tla", "serves_properties": ["C04"],
+             "kind_free_text": "TLA+ reference semantics of the expectation kinds; MC_Rules (enumeration + sanity), RulesTrace (re-evaluation of implementation answers)"},
         ],
         "checks": checks,
         "not_applicable": na,
